@@ -104,6 +104,13 @@ class GateSpec:
     def classify_if(self, ifnode, func, ctx):
         raise NotImplementedError
 
+    def forbidden_fold(self, func, ctx):
+        """Optional semantic form of the gate: a branch-test evaluator (test -> True/False/None) describing
+        the situation the gate must refuse (mode 'r'; target exists and overwrite is false).  GateAnalysis
+        prunes the CFG with it, so that a site counts as gated when it is unreachable in that situation —
+        whatever the layout of the tests (nested, split, guard clauses, either polarity)."""
+        return None
+
 
 class ModeGate(GateSpec):
     """G1: accessmode comparison whose read-only outcome always raises (and
@@ -137,6 +144,16 @@ class ModeGate(GateSpec):
                 any(is_writeable_flag(n) for n in ast.walk(t)):
             return ('assumed', f'unmodelled mode test `{norm(t)}`')
         return None
+
+
+def _mode_forbidden(test):
+    v = eval_mode_test(test, 'r')
+    if v is not None:
+        return v
+    return eval_writeable_test(test, False)
+
+
+ModeGate.forbidden_fold = lambda self, func, ctx: _mode_forbidden
 
 
 class GateAnalysis:
@@ -191,6 +208,17 @@ class GateAnalysis:
         self._gates[func.key] = gates
         return gates
 
+    def free_nodes(self, func, gates):
+        """CFG nodes reachable from the entry without passing a gate node and — when the spec has a semantic
+        form — still reachable after pruning the branches with the forbidden situation folded in."""
+        cfg = cfg_of(func)
+        free = cfg.reach(cfg.entry, avoid=gates) | {cfg.entry}
+        ft = self.spec.forbidden_fold(func, self.ctx)
+        if ft is not None:
+            from .pathcond import reach_under
+            free &= reach_under(func, ft, avoid=gates) | {cfg.entry}
+        return free
+
     def is_gate_func(self, func, _stack=()):
         """Every path from entry to the normal exit passes a gate."""
         if func.key in self._isgate:
@@ -199,7 +227,7 @@ class GateAnalysis:
             return False
         cfg = cfg_of(func)
         gates = self.local_gates(func, _stack)
-        res = bool(gates) and not cfg.can_reach(cfg.entry, cfg.exit, avoid=set(gates))
+        res = cfg.exit not in self.free_nodes(func, set(gates))
         if func.key not in self._inprogress:
             self._isgate[func.key] = res
         return res
@@ -211,7 +239,7 @@ class GateAnalysis:
             return []
         cfg = cfg_of(func)
         gates = set(self.local_gates(func))
-        free = cfg.reach(cfg.entry, avoid=gates) | {cfg.entry}
+        free = self.free_nodes(func, gates)
         out = []
         for e in self.ctx.E.primitives(func):
             if not is_site(e):
@@ -238,7 +266,7 @@ class GateAnalysis:
             return []
         cfg = cfg_of(func)
         gates = set(self.local_gates(func))
-        free = cfg.reach(cfg.entry, avoid=gates) | {cfg.entry}
+        free = self.free_nodes(func, gates)
         out = []
         for e in self.ctx.E.primitives(func):
             if is_site(e):
@@ -386,6 +414,33 @@ class OverwriteGate(GateSpec):
             return ('bad', f'overwrite test `{norm(st.test)}` does not raise when the target '
                            f'exists and overwrite is false')
         return ('bad', f'overwrite test `{norm(st.test)}` also raises when writing is allowed')
+
+
+def _overwrite_forbidden(self, func, ctx):
+    """exists() -> True, overwrite -> False; an exists() call is folded only when it takes part in a raising
+    nest of tests that also mentions `overwrite` (other existence tests of the function are left undecided)."""
+    from .pathcond import raising_ifs
+    texts = set()
+    for st, rb, ob, pol in raising_ifs(func):
+        chain = [st] + [p for p, _ in enclosing(func.node, st) if isinstance(p, ast.If)]
+        if any(isinstance(n, ast.Name) and n.id == 'overwrite' for c in chain for n in ast.walk(c.test)):
+            for c in chain:
+                for n in ast.walk(c.test):
+                    if is_exists_call(n):
+                        texts.add(norm(n))
+    if not texts:
+        return None
+
+    def atoms(e):
+        if is_exists_call(e) and norm(e) in texts:
+            return True
+        if isinstance(e, ast.Name) and e.id == 'overwrite':
+            return False
+        return None
+    return lambda test: eval_bool(test, atoms)
+
+
+OverwriteGate.forbidden_fold = _overwrite_forbidden
 
 
 def handler_reraises(h, exc_names=None):
